@@ -82,9 +82,13 @@ class GeventWorker(AsyncWorker):
             server.start()
             servers.append(server)
 
+        # never sleep longer between two notify() calls than the arbiter allows
+        # (self.timeout is half of the configured timeout, 0 means no timeout)
+        tick = min(1.0, self.timeout or 1.0)
+
         while self.alive:
             self.notify()
-            gevent.sleep(1.0)
+            gevent.sleep(tick)
 
         try:
             # Stop accepting requests
@@ -107,7 +111,7 @@ class GeventWorker(AsyncWorker):
                     return
 
                 self.notify()
-                gevent.sleep(1.0)
+                gevent.sleep(tick)
 
             # Force kill all active the handlers
             self.log.warning("Worker graceful timeout (pid:%s)", self.pid)
